@@ -110,6 +110,22 @@ func manifestHandler(raw json.RawMessage) (any, error) {
 			if err == nil && !inside(p) {
 				fact("lookup of %s returns %q which is not strictly inside the bundle root", a, strings.Replace(p, root, "<ROOT>", 1))
 			}
+			// the specific entry points must agree with the general one
+			same := func(name, q string, e error) {
+				if (e == nil) != (err == nil) || (e == nil && q != p) {
+					fact("%s(%s) = (%q, %v) but LocalPathForSource gives (%q, %v)", name, a, strings.Replace(q, root, "<ROOT>", 1), e, strings.Replace(p, root, "<ROOT>", 1), err)
+				}
+			}
+			switch x := a.(type) {
+			case sourceaddrs.RemoteSource:
+				q, e := b.LocalPathForRemoteSource(x)
+				same("LocalPathForRemoteSource", q, e)
+			case sourceaddrs.RegistrySourceFinal:
+				q, e := b.LocalPathForFinalRegistrySource(x)
+				same("LocalPathForFinalRegistrySource", q, e)
+				q, e = b.LocalPathForRegistrySource(x.Unversioned(), x.SelectedVersion())
+				same("LocalPathForRegistrySource", q, e)
+			}
 		})
 	}
 	// reverse lookups
@@ -214,10 +230,10 @@ func c18Docs(thorough bool) (docs []ManifestArg) {
 	locals := []string{"d1", "d2", "", ".", "..", "../x", "a/b", "/abs", "d1/", "..\\x", "../bundle-evil", "d1/../d2", "./d1", "d1/m"}
 	formats := []string{"1", "0", "2", "absent", `"1"`, "1.0", "-1", "18446744073709551617"}
 	src2 := []string{mA, mB, mAalias, "garbage"}
-	loc2 := []string{"d1", "d2", "..", "d1/x", "d1x"}
+	loc2 := []string{"d1", "d2", "..", "d1/x", "d1x", "D1"}
 	probes := []string{mA + "//%2e%2e/%2e%2e/outside", mA + "//a%2F..%2F..%2Fx", mA, mA + "//m", mB + "//m/n", mAalias + "//m", "git::https://example.com/zzz.git", mReg + "@1.0.0", mReg + "@1.0.0//m", mReg + "@9.9.9"}
 	add := func(desc, doc string) {
-		docs = append(docs, ManifestArg{Doc: doc, Desc: desc, Probes: probes, Dirs: []string{"d1", "d2", "d1x", "unknown"}})
+		docs = append(docs, ManifestArg{Doc: doc, Desc: desc, Probes: probes, Dirs: []string{"d1", "d2", "d1x", "unknown", "D1", "D2"}})
 	}
 	fs := formats[:1]
 	if thorough {
@@ -241,7 +257,7 @@ func c18Docs(thorough bool) (docs []ManifestArg) {
 	}
 	// registry section
 	regSrcs := []string{mReg, "x", mReg + "//sub", ""}
-	verKeys := []string{"1.0.0", "garbage", "v1.0.0", ""}
+	verKeys := []string{"1.0.0", "garbage", "v1.0.0", "", "1.0.18446744073709551616", "1.0.0+b", "01.0.0"}
 	verSrcs := []string{mA + "//%2e%2e/%2e%2e/%2e%2e", mA + "//m", "garbage", mA, "git::https://example.com/other.git//../x", mB + "//m/n"}
 	for _, rs := range regSrcs {
 		for _, vk := range verKeys {
